@@ -1,3 +1,4 @@
+import PprofVerif.Lemmas.CodecSchemaFacts
 import PprofVerif.Lemmas.CodecTotalPost
 import PprofVerif.Lemmas.LegacyCPUTotal
 import PprofVerif.Lemmas.LegacyCPUValues
@@ -318,6 +319,24 @@ theorem parse_ok_compact_valid (b : Bytes) (p : Profile) (h : parseData b = .ok 
   obtain ⟨hp, hv⟩ := (parseData_ok_iff b p).mp h
   exact Merge.compact_spec p hv (parse_ok_typed b p hp).1
 
+/-- … and its header is the documented one (`Compact` = `Merge` of one profile), PROVIDED the period
+is not negative: this hypothesis stays explicit — the parser accepts any int64 period
+(`negative_period_accepted`) and C03's period rule needs `0 ≤ period` (`period_rule_needs_nonneg`). -/
+theorem parse_ok_compact_header (b : Bytes) (p : Profile) (h : parseData b = .ok p) (hper : 0 ≤ p.period) :
+    ∃ c, Merge.compact p = .ok c ∧ Spec.headerOf c = Spec.combineHeadersSpec p [] := by
+  obtain ⟨hv, ht⟩ := Merge.parsed_valid_typed b p h
+  have hin : Merge.Inputs p [] := ⟨by intro q hq; simp at hq; subst hq; exact hv,
+    by intro q hq; simp at hq; subst hq; exact ht, Merge.compatibleB_self_single p⟩
+  obtain ⟨c, hc, _⟩ := Merge.merge_spec p [] hin
+  exact ⟨c, hc, Merge.merge_header p [] hin (by intro q hq; simp at hq; subst hq; exact hper) c hc⟩
+
+/-- the parser does accept a negative period (field 12 = -1): non-negativity is not a consequence of
+parsing. -/
+theorem negative_period_accepted :
+    (match parseData [0x32, 0x00, 0x60, 0xff, 0xff, 0xff, 0xff, 0xff, 0xff, 0xff, 0xff, 0xff, 0x01] with
+     | .ok p => decide (p.period = -1)
+     | _ => false) = true := by decide
+
 /-- the name DESIGN gives the statement for arbitrary valid profiles: `Compact` of a valid,
 well-typed profile neither panics nor leaves validity. -/
 theorem valid_compact_no_panic_valid (p : Profile) (hv : p.Valid) (ht : Merge.Typed p) :
@@ -358,5 +377,70 @@ theorem merge_terminates (b : Bytes) (bs : List Bytes) (first : Profile) (rest :
 -- types), so merging it with itself is an instance
 example : parseData exampleBytes = .ok exampleParsed ∧ Spec.compatibleB exampleParsed exampleParsed = true := by
   constructor <;> decide
+
+
+/-! ## Regenerated wire-schema facts (shared with C01; tools/extract/codecschema.go) -/
+
+open PV PV.Wire PV.Codec
+
+section WireSchema
+open PV.CodecSchema PV.Spec.CodecSchemaExpected
+
+/-- The decoder tables, interpreted generically (`dec[b.field]`, out of range ⇒ skipped), are the
+model's `apply` functions — for every wire field, including field numbers outside the tables. -/
+theorem schema_decoders_are_model :
+    (∀ (m : ProfileX) (f : Field), applyBy ProfileX.dict m f ProfileX.decTable = ProfileX.apply m f) ∧
+    (∀ (m : ValueTypeX) (f : Field), applyBy ValueTypeX.dict m f ValueTypeX.decTable = ValueTypeX.apply m f) ∧
+    (∀ (m : SampleX) (f : Field), applyBy SampleX.dict m f SampleX.decTable = SampleX.apply m f) ∧
+    (∀ (m : LabelX) (f : Field), applyBy LabelX.dict m f LabelX.decTable = LabelX.apply m f) ∧
+    (∀ (m : MappingX) (f : Field), applyBy MappingX.dict m f MappingX.decTable = MappingX.apply m f) ∧
+    (∀ (m : LocationX) (f : Field), applyBy LocationX.dict m f LocationX.decTable = LocationX.apply m f) ∧
+    (∀ (m : LineX) (f : Field), applyBy LineX.dict m f LineX.decTable = LineX.apply m f) ∧
+    (∀ (m : FunctionX) (f : Field), applyBy FunctionX.dict m f FunctionX.decTable = FunctionX.apply m f) :=
+  Facts.schema_decoders_are_model
+
+/-- The schema regenerated from profile/encode.go is the schema of the model: same message types
+in the same order, same statements (tag, encoder, field, guard) in every `encode` method, same
+decoder closure (shape, receiver type, field, nested message type) at every table index. -/
+theorem codec_schema_matches : Gen.CodecSchema.all = expectedSchema := Facts.codec_schema_matches
+
+/-- Every regenerated decoder table lists its entries at their own index (the Go code indexes the
+table by the field number; the model's tables carry the index explicitly). -/
+theorem decoder_indexes_are_positions : Gen.CodecSchema.all.all indexesArePositions = true :=
+  Facts.decoder_indexes_are_positions
+
+/-- proto.go `decodeVarint` gives up at the byte index at which the model does. -/
+theorem varint_limit_matches (i u : Nat) (b : UInt8) (rest : Bytes) :
+    decodeVarintGo i u (b :: rest) =
+      if i ≥ Gen.CodecSchema.proto.varintLimit then .err "bad varint" else
+      let u' := (u + (b.toNat % 128) * 2 ^ (7 * i)) % two64
+      if b.toNat < 128 then .ok (u', rest) else decodeVarintGo (i + 1) u' rest :=
+  Facts.varint_limit_matches i u b rest
+
+/-- proto.go `decodeField` splits the key, accepts exactly the wire types and reads exactly the
+fixed widths the model does: for any input whose key varint decodes to `x`. -/
+theorem wire_types_match (data rest : Bytes) (x : Nat) (h : decodeVarint data = .ok (x, rest)) :
+    (x % (Gen.CodecSchema.proto.typeMask + 1) ∉ Gen.CodecSchema.proto.wireTypes →
+      decodeField data = .err "unknown wire type") ∧
+    (∀ t n, (t, n) ∈ Gen.CodecSchema.proto.fixedSizes → x % (Gen.CodecSchema.proto.typeMask + 1) = t →
+      decodeField data =
+        if rest.length < n then .err "not enough data"
+        else .ok ({ num := x / 2 ^ Gen.CodecSchema.proto.fieldShift, typ := t, u64 := le (rest.take n), data := [] },
+                  rest.drop n)) :=
+  Facts.wire_types_match data rest x h
+
+/-- the hypothesis of `wire_types_match` is satisfiable: a fixed64 field (key 9 = field 1, type 1) -/
+example : decodeVarint [9, 1, 2, 3, 4, 5, 6, 7, 8] = .ok (9, [1, 2, 3, 4, 5, 6, 7, 8]) := by decide
+
+/-- postDecode builds one dense id table per entity table, of the length the model
+(`IdTables.build`) uses, and indexes them only under `if id < uint64(len(table))`. -/
+theorem dense_tables_match :
+    ∃ extra, Gen.CodecSchema.denseTables = expectedDenseTables extra ∧
+      ∀ ids : List Nat, IdTables.build ids =
+        IdTables.buildGo { dense := List.replicate (ids.length + extra) none, sparse := [] } 0 ids :=
+  Facts.dense_tables_match
+
+end WireSchema
+
 
 end PV.Props.C02
